@@ -83,11 +83,22 @@ DRAIN_IMPL = "impl<'a, const N: usize, T> Drain<'a, N, T>"
 DRAIN_FRAGMENT = [
     ("Drain_over_range", DRAIN_IMPL, "over_range", "_root_.CircBuf.Drain.new"),
     ("Drain_read", DRAIN_IMPL, "read", "_root_.CircBuf.Drain.read"),
+    ("Drain_as_slices", DRAIN_IMPL, "as_slices", "_root_.CircBuf.Drain.asSlices"),
+    ("Drain_as_mut_slices", DRAIN_IMPL, "as_mut_slices", "_root_.CircBuf.Drain.asSlices"),
     ("Drain_next", "impl<const N: usize, T> Iterator for Drain<'_, N, T>", "next", "_root_.CircBuf.Drain.next"),
     ("Drain_next_back", "impl<const N: usize, T> DoubleEndedIterator for Drain<'_, N, T>", "next_back", "_root_.CircBuf.Drain.nextBack"),
     ("Drain_len", "impl<const N: usize, T> ExactSizeIterator for Drain<'_, N, T>", "len", "fun d => pure (_root_.CircBuf.Drain.len d)"),
+    ("Drain_drop", "impl<const N: usize, T> Drop for Drain<'_, N, T>", "drop", "_root_.CircBuf.Drain.drop"),
 ]
+# the `while v > 0 { .. }` loop of `Drop for Drain` becomes the fuelled loop `whileFuel` (Mem.lean) over a step
+# function `Gen.Drain_drop_step` (one iteration on the tuple of the variables the body assigns), started
+# with fuel `v + 1` (every iteration is shown to decrease `v`: `backfill_fuel_suffices`); its hand-model
+# counterpart, used when the function is outside the subset
+DRAIN_LOOP_FALLBACK = ("Drain_drop_step", "Drain → CSP × CSP × Nat → M (CSP × CSP × Nat)",
+                       "fun _ => _root_.CircBuf.backfillStep")
 DRAIN_SIG = {"Drain_over_range": "Bound → Bound → M (Drain)", "Drain_read": "Drain → Nat → M (Elem)",
+             "Drain_as_slices": "Drain → M (View × View)", "Drain_as_mut_slices": "Drain → M (View × View)",
+             "Drain_drop": "Drain → M (Unit)",
              "Drain_next": "Drain → M (Option Elem × Drain)", "Drain_next_back": "Drain → M (Option Elem × Drain)",
              "Drain_len": "Drain → M (Nat)"}
 PANIC_TAG = {
@@ -210,6 +221,12 @@ class Parser:
         while not self.at("}"):
             if self.at("struct") or self.at("impl"):
                 stmts.append(self.local_item())
+                continue
+            if self.at("while"):
+                self.eat()
+                c = self.expr_nostruct()
+                b = self.block()
+                stmts.append(("while", c, b))
                 continue
             if self.at("let"):
                 self.eat()
@@ -513,6 +530,8 @@ class Emit:
         self.ndoc = 0            # documented panics seen so far in this function
         self.iter_mode = False   # `self` is an `Iter { right, left }` value named `it`
         self.drain_mode = False  # `self` is a `Drain` value named `d`
+        self.live_guards = {}    # drain mode: guard values that are dropped explicitly (`drop(g)`), by name
+        self.aux_defs = []       # definitions emitted before the function (the loop of `Drop for Drain`)
         self.guards = set()   # local structs whose Drop impl drops a slice in place
         self.scope_guards = []  # guard values declared in the function body, in declaration order
         self.kinds = {}       # variable -> kind ('nat','slot','elem','view','range','pair:view','opt:nat',...)
@@ -679,7 +698,7 @@ class Emit:
             return [], "View.empty", "view"
         if inner[0] == "index":
             base, idx = inner[1], inner[2]
-            if base == ("field", ("path", "self"), "items"):
+            if self.is_items(base):
                 if idx[0] == "range":
                     if idx[2] is None:
                         raise TErr("slice of items without an upper bound")
@@ -694,8 +713,9 @@ class Emit:
                 lo, hi = idx[1], idx[2]
                 pa, a, _ = self.ex(lo) if lo else ([], "0", "nat")
                 if hi is None:
-                    raise TErr("slice without an upper bound")
-                pb, b, _ = self.ex(hi)
+                    pb, b = [], f"{lean_name(base[1])}.len"          # `&v[a..]`
+                else:
+                    pb, b, _ = self.ex(hi)
                 t = self.fresh("v")
                 return pa + pb + [f"let {t} ← liftE (View.sub {lean_name(base[1])} {par(a)} {par(b)})"], t, "view"
         raise TErr("unsupported reference expression")
@@ -733,6 +753,11 @@ class Emit:
             else:
                 raise TErr("slice_take: unsupported range")
             return p + [f"let it : Iter := {{ it with {fld} := (View.{fn} it.{fld} {par(n)}).2 }}"], "()", "unit"
+        if name == "CircularSlicePtr::new" and len(args) == 1 and self.drain_mode:
+            a = args[0]
+            if not (a[0] == "ref" and self.is_items(a[2])):
+                raise TErr("CircularSlicePtr::new of something other than the items array")
+            return [], "(CSP.mk (← getBuf).cap 0)", "csp"
         if name == "NonNull::from" and len(args) == 1:
             p, v, kk = self.ex(args[0])
             if kk != "bufref":
@@ -793,6 +818,12 @@ class Emit:
         if self.drain_mode:
             if recv == ("field", ("path", "self"), "buf") and name in ("as_ref", "as_mut") and not args:
                 return [], "()", "bufref"
+            if recv == ("field", ("path", "self"), "iter") and name == "is_empty" and not args:
+                return [], "¬ (d.is < d.ie)", "prop"
+            if recv == ("path", "self") and name in ("as_slices", "as_mut_slices") and not args \
+                    and ("Drain_" + name) in self.fragment:
+                t = self.fresh("r")
+                return [f"let {t} ← Gen.Drain_{name} d"], t, "tuple:view,view"
             if recv == ("field", ("path", "self"), "iter") and name == "len" and not args:
                 return [], "d.ie - d.is", "nat"          # `Range<usize>::len` (saturating)
             if recv == ("field", ("path", "self"), "range") and name == "len" and not args:
@@ -874,6 +905,22 @@ class Emit:
             return [], f"¬ ({n}.1 < {n}.2)", "prop"
         # methods on values
         p, v, kk = self.ex(recv)
+        if self.drain_mode and kk == "csp":
+            if name == "add" and len(args) == 1:
+                p2, b, _ = self.ex(args[0])
+                t = self.fresh("c")
+                return p + p2 + [f"let {t} ← CSP.add {par(v)} {par(b)}"], t, "csp"
+            if name == "available_len" and not args:
+                t = self.fresh("n")
+                return p + [f"let {t} ← CSP.availableLen {par(v)}"], t, "nat"
+            if name in ("as_ptr", "as_mut_ptr") and not args:
+                t = self.fresh("q")
+                return p + [f"let {t} ← CSP.ptr {par(v)}"], t, "ptr"
+        if self.drain_mode and name == "min" and kk == "nat" and len(args) == 1:
+            p2, b, kb = self.ex(args[0])
+            if kb != "nat":
+                raise TErr(".min() of a non-integer")
+            return p + p2, f"min {par(v)} {par(b)}", "nat"
         if name == "add" and kk == "ptr":
             p2, b, _ = self.ex(args[0])
             return p + p2, f"{par(v)} + {par(b)}", "ptr"
@@ -924,13 +971,19 @@ class Emit:
             m = re.search(r"Drop for (\w+)", head)
             if not m:
                 raise TErr("local impl other than Drop")
-            want = "ptr::drop_in_place ( slice_assume_init_mut ( self . 0 ) )"
-            if want not in body:
+            want = ("ptr::drop_in_place ( slice_assume_init_mut ( self . 0 ) )", "ptr::drop_in_place ( self . 0 )")
+            if not any(w in body for w in want):
                 raise TErr("unrecognised Drop impl of a local guard struct")
             self.guards.add(m.group(1))
             return []
         if s[0] == "let":
             pat, e = s[1], s[2]
+            if e[0] == "call" and e[1] in self.guards and self.drain_mode and pat[0] == "pvar" and not pat[1].startswith("_"):
+                # a guard that the body drops explicitly (`drop(g)`)
+                p, v, kk = self.ex(e)
+                self.live_guards[pat[1]] = v
+                self.kinds[pat[1]] = "guard"
+                return p
             if e[0] == "call" and e[1] in self.guards:
                 p, v, kk = self.ex(e)
                 if pat[0] != "pvar" or not pat[1].startswith("_"):
@@ -947,7 +1000,7 @@ class Emit:
             if e == ("field", ("path", "self"), "items"):
                 raise TErr("alias of items")
             # `self.items.split_at(k)`
-            if e[0] == "mcall" and e[1] == ("field", ("path", "self"), "items") and e[2] in ("split_at", "split_at_mut"):
+            if e[0] == "mcall" and self.is_items(e[1]) and e[2] in ("split_at", "split_at_mut"):
                 p, b, _ = self.ex(e[3][0])
                 lhs = self.bind_pat(pat, "tuple:view,view", e)
                 return p + [f"let {lhs} ← liftE (View.splitAt (View.all (← getBuf).cap) {par(b)})"]
@@ -983,6 +1036,15 @@ class Emit:
                 if kk != "view":
                     raise TErr("assignment of a non-slice to an iterator field")
                 return p + [f"let it : Iter := {{ it with {lhs[2]} := {v} }}"]
+            if self.drain_mode and lhs[0] == "path" and self.kinds.get(lhs[1]) in ("nat", "csp"):
+                # assignment to a local (`let mut`): the name is rebound
+                if op == "=":
+                    p, v, kk = self.ex(rhs)
+                    if kk != self.kinds[lhs[1]]:
+                        raise TErr("assignment changes the type of a local")
+                    return p + [f"let {lean_name(lhs[1])} := {v}"]
+                p, v, _ = self.ex(("bin", op[0], lhs, rhs))
+                return p + [f"let {lean_name(lhs[1])} := {v}"]
             via_ref = lhs[0] == "field" and lhs[1][0] == "path" and self.kinds.get(lhs[1][1]) == "bufref"
             if not (lhs[0] == "field" and (lhs[1] == ("path", "self") or via_ref) and lhs[2] in ("size", "start")):
                 raise TErr("assignment to something other than self.size / self.start")
@@ -993,6 +1055,45 @@ class Emit:
             p, v, _ = self.ex(("bin", op[0], lhs, rhs))
             return p + [f"{setter} {par(v)}"]
         raise TErr(f"statement {s[0]}")
+
+    def emit_while(self, s):
+        """`while v > 0 { body }` (drain mode): a recursive definition on a fuel argument over the variables
+        the body assigns (in name order), called with fuel `v + 1`"""
+        _, c, b = s
+        if not (self.drain_mode and c[0] == "cmp" and c[1] == ">" and c[2][0] == "path" and c[3] == ("num", "0")
+                and self.kinds.get(c[2][1]) == "nat"):
+            raise TErr("loop of an unsupported shape")
+        if self.aux_defs:
+            raise TErr("more than one loop")
+        v = c[2][1]
+        assigned = sorted({x[2][1] for x in b[1] if x[0] == "assign" and x[2][0] == "path"})
+        if v not in assigned or b[2] is not None:
+            raise TErr("loop of an unsupported shape")
+        tys = {"nat": "Nat", "csp": "CSP"}
+        for x in assigned:
+            if self.kinds.get(x) not in tys:
+                raise TErr(f"loop variable {x} of an unsupported type")
+        saved = dict(self.kinds)
+        lines = []
+        for x in b[1]:
+            lines += self.stmt(x)
+        self.kinds = saved
+        n = len(assigned)
+
+        def proj(i):
+            return "x" + ".2" * i + (".1" if i < n - 1 else "")
+        if n == 1:
+            raise TErr("loop over a single variable")
+        sty = " × ".join(tys[self.kinds[x]] for x in assigned)
+        tup = "(" + ", ".join(lean_name(x) for x in assigned) + ")"
+        lname = f"Gen.{self.fname}_step"
+        d = [f"/-- one iteration of the `while {v} > 0` loop of `{self.fname}`, on the loop state {tup} -/",
+             f"def {lname} (d : Drain) (x : {sty}) : M ({sty}) := do"]
+        d += [f"  let {lean_name(y)} := {proj(i)}" for i, y in enumerate(assigned)]
+        d += ["  " + l for l in lines] + [f"  pure {tup}"]
+        self.aux_defs.append("\n".join(d))
+        self.loop_type = sty
+        return [f"whileFuel (fun x : {sty} => decide ({proj(assigned.index(v))} > 0)) ({lname} d) ({lean_name(v)} + 1) {tup}"]
 
     def bind_pat(self, pat, kind, e):
         if pat[0] == "pvar":
@@ -1094,8 +1195,32 @@ class Emit:
     # function / block body with early returns: statements + tail -> do-lines ending in a value
     def body(self, stmts, tail):
         out = []
+        skip = 0
         for idx, s in enumerate(stmts):
+            if skip:
+                skip -= 1
+                continue
             rest = stmts[idx + 1:]
+            if self.drain_mode and is_drop_call(s) and self.live_guards:
+                # `drop(g1); drop(g2); ..` over all the live guards: each one is destroyed even if an earlier
+                # one panicked (the others are still live locals then, and unwinding drops them)
+                run = []
+                for x in stmts[idx:]:
+                    if not is_drop_call(x):
+                        break
+                    run.append(x[1][2][0][1])
+                if sorted(run) != sorted(self.live_guards):
+                    raise TErr("explicit drops that do not cover the live guards exactly once")
+                term = f"dropInPlace {self.live_guards[run[-1]]}.slots"
+                for g in reversed(run[:-1]):
+                    term = f"tryFinally (dropInPlace {self.live_guards[g]}.slots) ({term})"
+                out.append(term)
+                self.live_guards = {}
+                skip = len(run) - 1
+                continue
+            if s[0] == "while":
+                out += self.emit_while(s)
+                continue
             # guard: if c { ...; return e; }
             if s[0] == "expr" and s[1][0] == "if" and s[1][3] is None and ends_in_return(s[1][2]):
                 _, c, th, _ = s[1]
@@ -1184,6 +1309,11 @@ class Emit:
         name = self.bind_pat(pat, "nat", inner)
         cont = self.body(rest, tail)
         return p + [f"match {v} with", "| none => pure none", f"| some {name} => do"] + ind(cont)
+
+
+def is_drop_call(s):
+    return (s[0] == "expr" and s[1][0] == "call" and s[1][1] == "drop" and len(s[1][2]) == 1
+            and s[1][2][0][0] == "path")
 
 
 def arm_returns(b):
@@ -1328,11 +1458,32 @@ def translate_iter(src, gname, impl_re, fname, fragment):
     return head + "\n" + "\n".join(ind(lines)), rkind, [t for _, t in lean_params], rty
 
 
+def drop_unstable_alternative(body):
+    """the checks build the crate without the `unstable` feature (C18 compares the two builds): of
+    `#[cfg(feature = "unstable")] unsafe { A }  #[cfg(not(feature = "unstable"))] unsafe { B }` keep B"""
+    out, i = "", 0
+    pat = re.compile(r'#\[cfg\(feature\s*=\s*"unstable"\)\]\s*(unsafe\s*)?\{')
+    while True:
+        m = pat.search(body, i)
+        if not m:
+            return out + body[i:]
+        out += body[i:m.start()]
+        d, j = 1, m.end()
+        while d:
+            d += (body[j] == "{") - (body[j] == "}")
+            j += 1
+        i = j
+
+
 def translate_drain(src, gname, impl_re, fname, fragment):
     """a function of `drain.rs`: `self` (if any) is a `Drain` value `d`; the buffer is the state; a
     `RangeBounds` argument is the pair of bounds `sb eb`"""
     sig, body = find_fn_in(src, impl_re, fname)
+    body = drop_unstable_alternative(body)
     body = re.sub(r"#!?\[[^\]]*\]", "", body)
+    # `&*(s as *const [MaybeUninit<T>] as *const [T])` is `slice_assume_init_ref(s)` spelled with casts
+    body = re.sub(r"&\s*\*\s*\(\s*(\w+)\s+as\s+\*const\s+\[MaybeUninit<T>\]\s+as\s+\*const\s+\[T\]\s*\)", r"slice_assume_init_ref(\1)", body)
+    body = re.sub(r"&mut\s*\*\s*\(\s*(\w+)\s+as\s+\*mut\s+\[MaybeUninit<T>\]\s+as\s+\*mut\s+\[T\]\s*\)", r"slice_assume_init_mut(\1)", body)
     params, (rty, rkind) = parse_sig(sig, iter_mode="drain")
     ast = Parser(tokenize(body)).block()
     em = Emit(gname, fragment)
@@ -1345,6 +1496,8 @@ def translate_drain(src, gname, impl_re, fname, fragment):
         elif kk != "bufref":
             lean_params.append((n, t))
     lines = em.body(ast[1], ast[2])
+    if em.scope_guards or em.live_guards:
+        raise TErr("guards that are not dropped explicitly")
     if rkind == "opt!":
         m = re.fullmatch(r"(\s*)pure \((.*)\)", lines[-1])
         if not m:
@@ -1352,7 +1505,12 @@ def translate_drain(src, gname, impl_re, fname, fragment):
         lines[-1] = f"{m.group(1)}pure ({m.group(2)}, d)"
     ps = "".join(f" ({lean_name(n)} : {t})" for n, t in lean_params)
     head = f"/-- translated from `fn {fname}` ({impl_re}) -/\ndef Gen.{gname}{ps} : M ({rty}) := do"
-    return head + "\n" + "\n".join(ind(lines)), rkind, [t for _, t in lean_params], rty
+    aux = "".join(a + "\n\n" for a in em.aux_defs)
+    if gname == "Drain_drop" and not em.aux_defs:
+        # the tie theorems speak of `Gen.Drain_drop_step`: keep the name defined
+        n, ty, model = DRAIN_LOOP_FALLBACK
+        aux = f"def Gen.{n} : {ty} := {model}\n\n"
+    return aux + head + "\n" + "\n".join(ind(lines)), rkind, [t for _, t in lean_params], rty
 
 
 def translate(src, name, fragment):
@@ -1549,6 +1707,9 @@ def generate(force_fallback):
         except Exception as e:
             why = (str(e) if isinstance(e, TErr) else f"internal: {type(e).__name__}: {e}").replace("-/", "- /")
             failed.append((gname, why))
+            if gname == "Drain_drop":
+                n, ty, lmodel = DRAIN_LOOP_FALLBACK
+                defs.append(f"def Gen.{n} : {ty} := {lmodel}")
             defs.append(f"/-- `{gname}` could not be translated on this run ({why}): the hand model\'s definition -/\n"
                         f"def Gen.{gname} : {DRAIN_SIG[gname]} := {model}")
         done[gname] = 1
